@@ -11,7 +11,7 @@ import z3
 from pyvc.vals import Val, NONE, I, B, R, Z, ref, fresh, cls_of, ArgPack, STRINGS
 from pyvc.verify import Unit, sym_inst, sym_val, user_calls
 from pyvc.symexec import Raise, LoopSpec
-from .base import make_cfg, FIELD_TYPES, INST, OPT, RecordCall
+from .base import make_cfg, FIELD_TYPES, INST, OPT, RecordCall, decided
 from .c_throttle import global_handler, TrackFuture
 from . import c_retry, c_poll, c_timeout, c_map      # noqa: F401  (field type declarations)
 
@@ -150,8 +150,8 @@ def _post_shutdown(cls_name):
                 cl.append(("W1: the worker thread is woken so that it observes the flag at once", "WK",
                            z3.And(z3.BoolVal(len(sets) >= 1), sets[0][1].recv == Val.id(st.get(event_f, sid)) if sets else False), ["C11", "C03", "C12"]))
             if thread_f:
-                waited = any(a == "wait" and b for a, b in st.decisions)
-                nowait = any(a == "wait" and not b for a, b in st.decisions)
+                waited = decided(engine, st, qn, "{$param#1|wait}", True)
+                nowait = decided(engine, st, qn, "{$param#1|wait}", False)
                 cl.append(("with wait=True the executor's own worker thread is joined, after the delegate was shut down and the worker woken; "
                            "with wait=False nothing is joined", "PC",
                            z3.BoolVal((len(joins) == 1 and joins[0][0] > downs[0][0] and (not sets or sets[0][0] < joins[0][0]) and not joins[0][1].held) if waited
